@@ -115,7 +115,7 @@ func (f *flat) stmts(body []SStmt) {
 				case "dflt":
 					cs = append(cs, fmt.Sprintf("(dflt %d)", target))
 				default:
-					if c.Dir == "recv" && (c.Form == 2 || c.Form == 3) {
+					if c.Dir == "recv" && (c.Form == 2 || c.Form == 3 || c.Form == 4) {
 						cs = append(cs, fmt.Sprintf("(recv2 %d %d %d %d)", c.Ch, c.Slot, c.Ok, target))
 					} else {
 						cs = append(cs, fmt.Sprintf("(%s %d %d %d)", c.Dir, c.Ch, c.Slot, target))
@@ -177,7 +177,19 @@ func (p *MProg) goStmts(b *strings.Builder, body []SStmt, ind string) {
 		case "send":
 			fmt.Fprintf(b, "%sc%d <- s%d\n", ind, s.C, s.A)
 		case "recv":
-			fmt.Fprintf(b, "%ss%d, ok = <-c%d\n%ss%d = b2i(ok)\n", ind, s.A, s.C, ind, s.B)
+			// the model's two-value receive, written with identifier, indexed, field or pointed-to destinations
+			// (the destination forms of F08-7, all repaired)
+			switch s.V % 4 {
+			case 1:
+				fmt.Fprintf(b, "%sarr[0], oks[0] = <-c%d\n%ss%d = arr[0]\n%ss%d = b2i(oks[0])\n", ind, s.C, ind, s.A, ind, s.B)
+			case 2:
+				fmt.Fprintf(b, "%sst.v, st.ok = <-c%d\n%ss%d = st.v\n%ss%d = b2i(st.ok)\n", ind, s.C, ind, s.A, ind, s.B)
+			case 3:
+				// single-value form: generated only where the buffer is known to hold a value (status 1)
+				fmt.Fprintf(b, "%sarr[0] = <-c%d\n%ss%d = arr[0]\n%ss%d = 1\n", ind, s.C, ind, s.A, ind, s.B)
+			default:
+				fmt.Fprintf(b, "%ss%d, ok = <-c%d\n%ss%d = b2i(ok)\n", ind, s.A, s.C, ind, s.B)
+			}
 		case "close":
 			fmt.Fprintf(b, "%sclose(c%d)\n", ind, s.C)
 		case "print":
@@ -210,6 +222,10 @@ func (p *MProg) goStmts(b *strings.Builder, body []SStmt, ind string) {
 						fmt.Fprintf(b, "%scase s%d, ok = <-%s:\n%s\ts%d = b2i(ok)\n", ind, c.Slot, ch, ind, c.Ok)
 					case 3:
 						fmt.Fprintf(b, "%scase v, k := <-%s:\n%s\ts%d = v\n%s\ts%d = b2i(k)\n", ind, ch, ind, c.Slot, ind, c.Ok)
+					case 4: // non-identifier destinations of a two-value clause (F08-9, repaired)
+						fmt.Fprintf(b, "%scase arr[0], oks[0] = <-%s:\n%s\ts%d = arr[0]\n%s\ts%d = b2i(oks[0])\n", ind, ch, ind, c.Slot, ind, c.Ok)
+					case 5: // blank status (F08-8, repaired)
+						fmt.Fprintf(b, "%scase st.v, _ = <-%s:\n%s\ts%d = st.v\n", ind, ch, ind, c.Slot)
 					default:
 						fmt.Fprintf(b, "%scase v := <-%s:\n%s\ts%d = v\n", ind, ch, ind, c.Slot)
 					}
@@ -229,7 +245,7 @@ func (p *MProg) goStmts(b *strings.Builder, body []SStmt, ind string) {
 func (p *MProg) Go() string {
 	var b strings.Builder
 	b.WriteString("package main\n\nimport (\n\t\"fmt\"\n\t\"sync\"\n)\n\nfunc b2i(b bool) int {\n\tif b {\n\t\treturn 1\n\t}\n\treturn 0\n}\n\n")
-	b.WriteString("func worker(w int, init []int, cs []chan int, res [][]int, wg *sync.WaitGroup) {\n\tvar out []int\n\tvar ok bool\n\t_ = ok\n")
+	b.WriteString("type dst struct {\n\tv  int\n\tok bool\n}\n\nfunc worker(w int, init []int, cs []chan int, res [][]int, wg *sync.WaitGroup) {\n\tvar out []int\n\tvar ok bool\n\tarr := make([]int, 1)\n\toks := make([]bool, 1)\n\tst := dst{}\n\t_, _, _, _ = ok, arr, oks, st\n")
 	for i := 0; i < p.NSlots; i++ {
 		fmt.Fprintf(&b, "\ts%d := init[%d]\n\t_ = s%d\n", i, i, i)
 	}
@@ -354,10 +370,10 @@ func (g *mgen) simple(o *occ, inLoop bool, depth int) []SStmt {
 		c := r.Intn(len(o.n))
 		if o.n[c] > 0 {
 			o.n[c]--
-			return []SStmt{{Op: "recv", A: g.data(), B: 1, C: c}, {Op: "print", A: 1}}
+			return []SStmt{{Op: "recv", A: g.data(), B: 1, C: c, V: int64(r.Intn(4))}, {Op: "print", A: 1}}
 		}
 		if o.closed[c] {
-			return []SStmt{{Op: "recv", A: g.data(), B: 1, C: c}, {Op: "print", A: 1}}
+			return []SStmt{{Op: "recv", A: g.data(), B: 1, C: c, V: int64(r.Intn(3))}, {Op: "print", A: 1}}
 		}
 	case k < 11: // close (never inside a loop: the second iteration would panic)
 		c := r.Intn(len(o.n))
@@ -402,9 +418,9 @@ func (g *mgen) form(c SCase) SCase {
 	if c.Dir != "recv" {
 		return c
 	}
-	c.Form = g.rng.Intn(4)
+	c.Form = g.rng.Intn(6)
 	c.Expr = g.rng.Intn(3) == 0
-	if c.Form >= 2 {
+	if c.Form == 2 || c.Form == 3 || c.Form == 4 {
 		c.Ok = 1
 	}
 	return c
